@@ -54,6 +54,12 @@ pub const ACTIONS: &[(&str, &str)] = &[
     ("tmp-ro-external", "r=tmp venv r"),
     ("int-arith-append", "x=5; declare -i x; x+=3"),
     ("tmp-export-check", "x=t1 a=t2 venv x a"),
+    // temporary assignments on builtins that fail (status) or abort with an error: the assignment must not survive
+    ("tmp-builtin-status", "x=tmp false"),
+    ("tmp-builtin-error-read", "x=tmp read r <<<z"),
+    ("tmp-builtin-error-printf", "x=tmp printf -v r '%s' q"),
+    ("tmp-builtin-error-cd", "x=tmp cd /nonexistent-dir 2>/dev/null"),
+    ("tmp-two-builtin-error", "x=t1 a=t2 cd /nonexistent-dir 2>/dev/null"),
 ];
 
 const PROBE: &str = "pr() { local n; for n in x a r; do declare -p $n 2>/dev/null || echo \"$n: unset\"; done; venv x a r; }\n";
